@@ -2112,7 +2112,7 @@ def laplacian_regularizer(weights, lattice_sizes, l1=0.0, l2=0.0):
     Laplacian regularization loss.
   """
   if not l1 and not l2:
-    return 0.0
+    return tf.constant(0.0, shape=[], dtype=weights.dtype)
 
   rank = len(lattice_sizes)
   # If regularization amount is given as single float assume same amount for
@@ -2192,7 +2192,7 @@ def torsion_regularizer(weights, lattice_sizes, l1=0.0, l2=0.0):
   """
   rank = len(lattice_sizes)
   if rank == 1 or (not l1 and not l2):
-    return 0.0
+    return tf.constant(0.0, shape=[], dtype=weights.dtype)
 
   # If regularization amount is given as single float assume same amount for
   # every dimension.
